@@ -52,6 +52,34 @@ type Connection struct {
 	// Message queue for backpressure handling
 	messageQueue [][]byte
 	queueMu      sync.Mutex
+
+	// sendMu orders Send against closeSend: senders hold it shared while they
+	// use the send channel, closeSend holds it exclusively while closing it.
+	sendMu     sync.RWMutex
+	sendClosed bool
+	done       chan struct{} // closed by closeSend to release blocked senders
+	doneOnce   sync.Once
+	closeOnce  sync.Once
+}
+
+// doneCh returns the channel that closeSend closes. It is created lazily so a
+// zero-value Connection works.
+func (c *Connection) doneCh() chan struct{} {
+	c.doneOnce.Do(func() { c.done = make(chan struct{}) })
+	return c.done
+}
+
+// closeSend closes the outbound channel exactly once. Blocked senders are
+// released first (they hold sendMu shared), then the channel is closed under
+// the exclusive lock so no Send can be using it.
+func (c *Connection) closeSend() {
+	c.closeOnce.Do(func() {
+		close(c.doneCh())
+		c.sendMu.Lock()
+		c.sendClosed = true
+		close(c.send)
+		c.sendMu.Unlock()
+	})
 }
 
 // RoutePattern returns the route pattern this connection matched
@@ -230,6 +258,13 @@ func (c *Connection) WritePump() {
 func (c *Connection) Send(message []byte) error {
 	config := c.hub.config
 
+	// The hub closes the channel on disconnect; sending after that would panic.
+	c.sendMu.RLock()
+	defer c.sendMu.RUnlock()
+	if c.sendClosed {
+		return ErrConnectionClosed
+	}
+
 	select {
 	case c.send <- message:
 		return nil
@@ -262,8 +297,12 @@ func (c *Connection) Send(message []byte) error {
 			fallthrough
 		default:
 			// Block until space is available or connection closes
-			c.send <- message
-			return nil
+			select {
+			case c.send <- message:
+				return nil
+			case <-c.doneCh():
+				return ErrConnectionClosed
+			}
 		}
 	}
 }
